@@ -125,6 +125,45 @@ Definition run_sw (sw : bool) (ops : list op) (h : heap) : heap := if sw then he
 Definition run := run_gen opts_hold.
 Definition old_run := run_gen old_opts_hold.
 
+(* ---------------------------------------------------------------- refused constructions (ValueError)
+   A constructor is a list of effects on the caller's heap in program order; a construction that is refused stops after
+   the first n of them.  Two kinds of effect exist in the summaries: writing keys into the held options dict, and
+   tagging / untagging the caller's graph with a temporary attribute while a node expansion is built from it.
+   The CURRENT code tags a private deep copy ([no_tag]); [inplace_tag] is the explicitly named summary of a kPathCover
+   that tags the caller's own graph and removes the tags afterwards: invisible after every completed construction,
+   left behind by a refused one (this is why every refused step of a history is followed by the snapshot comparison). *)
+Definition with_graph (h : heap) (g : list nat) : heap :=
+  {| h_graph := g; h_opts := h_opts h; h_has_ext := h_has_ext h; h_ext := h_ext h; h_sopts := h_sopts h; h_cons := h_cons h;
+     h_ign := h_ign h; h_starts := h_starts h; h_ends := h_ends h; h_sup := h_sup h; h_defaults := h_defaults h |}.
+Inductive eff := EKeys (ks : list key) | ETag (t : nat) | EUntag (t : nat).
+Definition apply_eff (h : heap) (e : eff) : heap :=
+  match e with
+  | EKeys ks => with_opts h (set_keys (h_opts h) ks)
+  | ETag t => with_graph h (h_graph h ++ [t])
+  | EUntag t => with_graph h (filter (fun x => negb (Nat.eqb x t)) (h_graph h))
+  end.
+Definition no_tag (c : cls) : bool := false.
+Definition inplace_tag (c : cls) : bool := match c with CkPathCover => true | _ => false end.
+Definition ctor_effs (hold_of : cls -> hold) (tag : cls -> bool) (h : heap) (o : op) : list eff :=
+  (if tag (o_cls o) then [ETag 1; EUntag 1] else []) ++           (* around the construction of the node expansion, which validates the graph *)
+  (if negb (o_pass_opts o) || is_empty (h_opts h) then []
+   else match hold_of (o_cls o) with
+        | AliasIfNonEmpty => [EKeys (ctor_writes (o_cls o) (o_sup o) (o_hc o))]
+        | _ => []
+        end).
+Definition run_effs (es : list eff) (h : heap) : heap := fold_left apply_eff es h.
+Definition refused_gen (hold_of : cls -> hold) (tag : cls -> bool) (h : heap) (o : op) (n : nat) : heap :=
+  run_effs (firstn n (ctor_effs hold_of tag h o)) h.
+Definition completed_gen (hold_of : cls -> hold) (tag : cls -> bool) (h : heap) (o : op) : heap :=
+  run_effs (ctor_effs hold_of tag h o) h.
+Definition refused_step := refused_gen opts_hold no_tag.          (* the current code *)
+(* histories whose steps are completed or refused constructions *)
+Inductive event := Built (o : op) | Refused (o : op) (n : nat).
+Definition ev_step (h : heap) (e : event) : heap := match e with Built o => step h o | Refused o n => refused_step h o n end.
+Definition ev_run (evs : list event) (h : heap) : heap := fold_left ev_step evs h.
+Definition ev_step_sw (sw : bool) (h : heap) (e : event) : heap :=
+  match e with Built o => run_sw sw [o] h | Refused o n => refused_step h o n end.
+
 (* what the constructed model sees: the option keys present at construction time (user keys only: the keys a
    constructor writes itself are overwritten by it), together with the other argument values *)
 Definition written_by_ctors (k : key) : bool := match k with KUser _ => false | KTrusted => false | _ => true end.
